@@ -45,8 +45,8 @@ for _k in ('C02', 'C07', 'C09'):
     NA.pop(_k, None)
 claim('C02', 'other', 'contract-based deductive verification (class-invariant rule R5) on an abstract heap: real mutator bodies symbolically executed, WF clauses discharged by z3/cvc5; prefix-count loop invariants for gates of arbitrary arity; modular call rule for the users-index primitives',
       'For an arbitrary well-formed circuit: _add_user/_remove_user meet the contracts used at their call sites; _emplace_gate, _add_gate, emplace_gate, add_gate (gate of any type and ANY arity), remove_gate/_remove_gate (incl. blocks and outputs), '
-      'rename_gate (arbitrary arity, any number of users, repeated outputs, blocks; three loops cut by closed-form invariants), into_bench (loop invariant, convert_gate through its contract proved under C14), set_inputs (<=3 labels), add_inputs (<=2 labels), order_inputs / order_outputs with utils.order_list (lists of any length, requested prefix <=3), make_block with given lists (<=2 labels each), mark_as_output, set_outputs, delete_block preserve every WF clause, with exact raise conditions and untouched state on raise — proved for all circuits; converters: see C14. '
-      'The other public mutators (replace_inputs: C19, make_block with collected inputs, make_block_from_slice, remove_block, connect_circuit family, replace_subcircuit, copy) and whole histories are exercised by the bounded stand-in, so the claim is not `proof`.',
+      'rename_gate (arbitrary arity, any number of users, repeated outputs, blocks; three loops cut by closed-form invariants), into_bench (loop invariant, convert_gate through its contract proved under C14), set_inputs (lists of any length), add_inputs (<=2 labels), copy.copy / __copy__ (the copy has the same gates, inputs, outputs and generic block, is well formed, shares no container with the original, which stays untouched), order_inputs / order_outputs with utils.order_list (lists of any length, requested prefix <=3), make_block with given lists (<=2 labels each), mark_as_output, set_outputs, delete_block preserve every WF clause, with exact raise conditions and untouched state on raise — proved for all circuits; converters: see C14. '
+      'The other public mutators (replace_inputs: C19, make_block with collected inputs, make_block_from_slice, remove_block, connect_circuit family, replace_subcircuit) and whole histories are exercised by the bounded stand-in, so the claim is not `proof`.',
       T_ASSUME + 'Abstract model of the five Circuit containers (count/positional views); background lemmas on tuple counts; histories: bounded (<=2 calls exhaustive + random <=6).', 'DESIGN.md §6 C02')
 claim('C07', 'other', 'contract-based deductive verification on an abstract host circuit: generator + circuit code symbolically executed, value equation / freshness frame / WF / basis obligations discharged by z3',
       'Leaf gadgets (sum2/3, aig variants, stockmeyer, mdfa, simplified mdfa) proved for all operand values, all hosts and operand aliasing; add_sum_n_bits (n<=5 quick / 7 thorough, both bases, several spellings), add_sum_two_numbers and _with_shift '
